@@ -9,6 +9,8 @@ use consts::{HADDR_SPENDER_INDEX, HADDR_SPENDER_TX};
 // pub use executor::*;
 
 use executor::Executor;
+#[cfg(melstf_verif)]
+pub use executor::Executor as VerifExecutor;
 use opcode::{opcodes_weight, DecodeError, OpCode};
 use serde::{Deserialize, Serialize};
 use melstructs::{Address, CoinDataHeight, CoinID, Header, Transaction};
